@@ -179,6 +179,7 @@ inductive Simple
   | call (c : Call)
   | printLines (lo hi : Expr)      -- rank 0: for i in range(lo, hi): print(diagnostics.getLine(i), file=…)
   | pollTime                        -- timeForLoop = comm.allreduce(… < stopTime, op=MPI.LAND)
+  | divBy (e : Expr)                -- a timing statement divides by `e` (ZeroDivisionError if it is 0)
   | setupFromFile                   -- distribFunc, constants, t = setupFromFile(foldername, …, layout='v_parallel')
   | setupNew                        -- distribFunc, constants, t = setupCylindricalGrid(…, layout='v_parallel'); setupSave
   | allocPhi                        -- phi = Grid(…, remapperPhi, 'mode_solve', …)   (np.empty contents)
@@ -230,6 +231,8 @@ structure CState where
   /-- time of the checkpoint `setupFromFile` finds (if any) -/
   fileTime : Int
   events : List Event
+  /-- a timing statement divided by zero (the run dies with ZeroDivisionError) -/
+  crashed : Bool
 deriving Repr
 
 def CState.get (s : CState) : Var → Int
@@ -273,6 +276,7 @@ def execSimpleC (s : CState) : Simple → CState
   | .call _ => s
   | .printLines lo hi => s.emit (.lines (lo.eval s) (hi.eval s))
   | .pollTime => { s with timeForLoop := s.clock.headD true, clock := s.clock.tail }
+  | .divBy e => { s with crashed := s.crashed || decide (e.eval s = 0) }
   | .setupFromFile => { s with t := s.fileTime }
   | .setupNew => { s with t := 0 }
   | .allocPhi | .allocRho | .allocParGradVals => s
@@ -383,6 +387,7 @@ def execSimpleS (junk : Nat → Term) (loaded : SGrid) (fresh : Term) (s : Sim) 
   | .call c => execCallS s c
   | .printLines _ _ => some s
   | .pollTime => some s
+  | .divBy _ => some s
   /- `setupFromFile(…, layout='v_parallel')`: the stored field in the stored layout, then `setLayout('v_parallel')` -/
   | .setupFromFile => if layoutOk .distribFunc loaded.lay then some { s with f := { loaded with lay := .v_parallel }, fsave := none } else none
   | .setupNew => some { s with f := { field := fresh, lay := .v_parallel }, fsave := none }
@@ -398,7 +403,7 @@ def execSimplesS (junk : Nat → Term) (loaded : SGrid) (fresh : Term) : Sim →
 
 /-- is the statement free of effects on the numerical state (so that a branch on counters cannot change it) -/
 def Simple.dataPure : Simple → Bool
-  | .assign _ _ | .printLines _ _ | .pollTime => true
+  | .assign _ _ | .printLines _ _ | .pollTime | .divBy _ => true
   | .call (.collect _ _) | .call .reduce => true
   | _ => false
 
